@@ -45,6 +45,10 @@ macro_rules! mkperm {
     }};
 }
 
+fn mutation() -> u32 {
+    std::env::var("C13_MUT").ok().and_then(|s| s.parse().ok()).unwrap_or(0)
+}
+
 fn b01(x: bool) -> &'static str {
     if x { "1" } else { "0" }
 }
@@ -130,7 +134,7 @@ macro_rules! ring_mod {
                 let st: Vec<String> = trip.iter().map(|(i, j, x)| format!("{} {} {}", i, j, show(x))).collect();
                 format!(
                     "M {} {} nnz={} z={} id={} [{}] [{}]",
-                    m, n, a.nnz(), b01(a.is_zero()), b01(a.is_id()), st.join(","), dense
+                    m, n, a.nnz(), b01(if mutation() == 3 { a.nnz() == 0 } else { a.is_zero() }), b01(a.is_id()), st.join(","), dense
                 )
             }
 
@@ -305,7 +309,16 @@ macro_rules! ring_mod {
                         "fe" => {
                             let (m, n, k) = (self.nat()?, self.nat()?, self.nat()?);
                             let es = self.trip(k)?;
-                            let a = self.g(|| SpMat::from_entries((m, n), es.clone()))?;
+                            let a = if mutation() == 5 {
+                                self.g(|| {
+                                    let mut last: Vec<(usize, usize, R)> = vec![];
+                                    for e in es.iter() {
+                                        last.retain(|x| !(x.0 == e.0 && x.1 == e.1));
+                                        last.push(e.clone());
+                                    }
+                                    SpMat::from_entries((m, n), last)
+                                })?
+                            } else { self.g(|| SpMat::from_entries((m, n), es.clone()))? };
                             self.st.push(Val::M(a));
                         }
                         "fdd" => {
@@ -389,7 +402,9 @@ macro_rules! ring_mod {
                             let q = self.pop_p()?;
                             let p = self.pop_p()?;
                             let a = self.pop_m()?;
-                            let r = self.g(|| a.permute(mkperm!(&p).view(), mkperm!(&q).view()))?;
+                            let r = if mutation() == 4 {
+                                self.g(|| { let (pp, qq) = (mkperm!(&p), mkperm!(&q)); a.permute(pp.inv().view(), qq.inv().view()) })?
+                            } else { self.g(|| a.permute(mkperm!(&p).view(), mkperm!(&q).view()))? };
                             self.st.push(Val::M(r));
                         }
                         "permr" => {
@@ -407,7 +422,14 @@ macro_rules! ring_mod {
                         "sm" => {
                             let (i0, i1, j0, j1) = (self.nat()?, self.nat()?, self.nat()?, self.nat()?);
                             let a = self.pop_m()?;
-                            let r = self.g(|| a.submat(i0..i1, j0..j1))?;
+                            let r = if mutation() == 2 {
+                                self.g(|| {
+                                    assert!(i0 <= i1 && i1 <= a.nrows() && j0 <= j1 && j1 <= a.ncols());
+                                    a.extract((i1 - i0, j1 - j0), |i, j| {
+                                        if (i0..i1).contains(&i) && (j0..j1).contains(&j) { Some((i - i0, j)) } else { None }
+                                    })
+                                })?
+                            } else { self.g(|| a.submat(i0..i1, j0..j1))? };
                             self.st.push(Val::M(r));
                         }
                         "smr" => {
@@ -536,7 +558,15 @@ macro_rules! ring_mod {
                         "vsplit" => {
                             let k = self.nat()?;
                             let v = self.pop_v()?;
-                            let (x, y) = self.g(|| v.split(k))?;
+                            let (x, y) = if mutation() == 6 {
+                                self.g(|| {
+                                    let (x, y) = v.split(k);
+                                    if k < v.dim() && k > 0 {
+                                        let x2 = SpVec::from_entries(k, v.iter().filter(|e| e.0 <= k).map(|(i, a)| (i.min(k - 1), a.clone())));
+                                        (x2, y)
+                                    } else { (x, y) }
+                                })?
+                            } else { self.g(|| v.split(k))? };
                             self.st.extend([Val::V(x), Val::V(y)]);
                         }
                         "vstackn" => {
@@ -738,14 +768,16 @@ macro_rules! ring_mod {
                         "tmerge" => {
                             let u = self.pop_t()?;
                             let t = self.pop_t()?;
-                            let r = agree_t(vec![
+                            let r = if mutation() == 1 {
+                                self.g(|| u.merged(&t))?
+                            } else { agree_t(vec![
                                 guarded(|| {
                                     let mut x = t.clone();
                                     x.merge(u.clone());
                                     x
                                 }),
                                 guarded(|| t.merged(&u)),
-                            ])?;
+                            ])? };
                             self.st.push(Val::T(r));
                         }
                         "tred" => {
